@@ -62,7 +62,7 @@ PROPS = {
         'decision kernel only: link kind x position x url form x (linking directory, target directory) x target has heading; output read from the projected GraphBlocks; '
         'the final "[text](url)" string and the refs_extension concatenation are outside',
         'relative-path join / relative / parent are native models validated against the real crate by the translator validation']},
-    'C18': {'specs': [PATHS_SPEC], 'notes': COMMON + [
+    'C18': {'specs': [PATHS_SPEC, LIB_SPEC], 'notes': COMMON + [
         'claimed for the path enumeration and the rank ordering of Graph::search_paths; fuzzy scores (SkimMatcherV2), the 100-entry cut-off at real sizes and symbol Urls are outside',
         'oracle: independent forward enumeration over the input documents (root notes = notes nobody includes; steps heading -> sub-heading, heading -> top-level heading of a note included by a direct block reference; no note twice on a path)']},
     'C17': {'specs': SQUASH_SPECS, 'notes': COMMON + [
